@@ -1112,6 +1112,8 @@ impl BytecodeVM {
                     saved_registers: Vec::new(),
                     saved_call_stack: Vec::new(),
                     saved_try_stack: Vec::new(),
+                    saved_env_stack: Vec::new(),
+                    saved_pending_completion: None,
                     yield_result_register: None,
                     func_env: None,
                     current_env: None,
@@ -1149,6 +1151,8 @@ impl BytecodeVM {
                     saved_registers: Vec::new(),
                     saved_call_stack: Vec::new(),
                     saved_try_stack: Vec::new(),
+                    saved_env_stack: Vec::new(),
+                    saved_pending_completion: None,
                     yield_result_register: None,
                     func_env: None,
                     current_env: None,
